@@ -160,7 +160,8 @@ class ModelMixin3:
         le: ListE = st.get(recv.sym)
         if name == 'append':
             v = args[0] if args else NoneV()
-            self.hook('list-append', st, node, list=recv, value=v)
+            if not getattr(self, '_internal_append', False):
+                self.hook('list-append', st, node, list=recv, value=v)
             if le.kind == 'lit' and st.frame.loops == 0 and False:
                 pass
             notin = isinstance(v, Ref) and ('notin', v.sym, recv.sym) in st.facts
@@ -202,7 +203,8 @@ class ModelMixin3:
                 self.note('list.extend with a non-list argument')
                 stages = le.stages
             st.put(recv.sym, replace(le, kind='accum', hi=None, items=tuple(items), owned=tuple(owned), ordered=ordered, stages=stages))
-            self.hook('list-append', st, node, list=recv, value=other)
+            if not getattr(self, '_internal_append', False):
+                self.hook('list-append', st, node, list=recv, value=other)
             return [(NoneV(), st)]
         if name == 'index':
             src = le
